@@ -2576,6 +2576,116 @@ fn run_limit_case(c: &LCase, listener: &TcpListener) -> Value {
 	obs
 }
 
+/// Mainnet parameters only: a frame larger than any the test networks allow, and IMMEDIATELY after it a header list of
+/// k headers (more than one batch of 32 for most k), then a ping. Headers must carry a proof of work that verifies under
+/// Mainnet parameters: the two production genesis headers, in an order-sensitive pattern. What the codec hands out must
+/// be the big frame's message, exactly the k headers in order, and the ping.
+fn mainnet_sequences(listener: &TcpListener, first_id: u64) -> Vec<Value> {
+	let gm = grin_core::genesis::genesis_main().header;
+	let gt = grin_core::genesis::genesis_test().header;
+	let enc = |h: &BlockHeader, vi: usize| ser::ser_vec(h, pv(vi)).unwrap_or_default();
+	let mut out = vec![];
+	let mut id = first_id;
+	for big in [1_000u64, 70_000, 200_000, 1_000_000] {
+		for k in [1usize, 32, 33, 40, 64, 65] {
+			let vi = (id % 4) as usize;
+			// order-sensitive pattern
+			let pat: Vec<bool> = (0..k).map(|i| (i * 7 + i / 3) % 3 == 0).collect();
+			let sent: Vec<Vec<u8>> = pat.iter().map(|t| if *t { enc(&gt, vi) } else { enc(&gm, vi) }).collect();
+			let mut body = (k as u16).to_be_bytes().to_vec();
+			for b in &sent {
+				body.extend_from_slice(b);
+			}
+			let mut bytes = frame_header(MAGIC(), 200, big);
+			bytes.extend(Prng::new(big ^ k as u64).bytes(big as usize));
+			bytes.extend(frame_header(MAGIC(), 9, body.len() as u64));
+			bytes.extend_from_slice(&body);
+			bytes.extend_from_slice(&ping_frame());
+			let mut obs = json!({"id": id, "class": "accept_seq", "type": "Headers", "ty": 9, "boundary": format!("after_unknown_{}_bytes/{}_headers", big, k),
+				"len": body.len().to_string(), "version": VERSIONS[vi]});
+			id += 1;
+			let (client, server) = match socket_pair(listener) {
+				Ok(p) => p,
+				Err(e) => {
+					obs["inconclusive"] = json!(e);
+					out.push(obs);
+					continue;
+				}
+			};
+			let _ = client.set_write_timeout(Some(Duration::from_secs(20)));
+			let sender = thread::spawn(move || {
+				let mut w = &client;
+				let _ = w.write_all(&bytes);
+				client
+			});
+			let mut codec = Codec::new(pv(vi), server);
+			let mut viol: Vec<(String, String)> = vec![];
+			let mut got_hdrs = 0usize;
+			let mut first_seen = false;
+			let mut ping_seen = false;
+			let mut outcome = "incomplete".to_string();
+			for _ in 0..200 {
+				match monitor::catch(|| codec.read()) {
+					Err(pr) => {
+						viol.push((format!("oracle=sequence;class=large_frame_then_headers;event=panic@{}", pr.location), pr.message));
+						outcome = "panic".into();
+						break;
+					}
+					Ok((Err(e), _)) => {
+						outcome = format!("err:{}", err_class(&e));
+						break;
+					}
+					Ok((Ok(m), _)) => {
+						if !first_seen {
+							first_seen = true;
+							if matches!(m, Message::Headers(_)) || is_sentinel_ping(&m) {
+								viol.push(("oracle=sequence;class=large_frame_then_headers;event=first_message_missing".into(), format!("the first message handed out is {}", m)));
+								break;
+							}
+							continue;
+						}
+						match m {
+							Message::Headers(hd) => {
+								for h in &hd.headers {
+									let b = ser::ser_vec(h, pv(vi)).unwrap_or_default();
+									if got_hdrs >= sent.len() || b != sent[got_hdrs] {
+										viol.push(("oracle=sequence;class=large_frame_then_headers;event=header_differs".into(), format!("header #{} handed out is not header #{} of the list sent", got_hdrs, got_hdrs)));
+									}
+									got_hdrs += 1;
+								}
+							}
+							m if is_sentinel_ping(&m) => {
+								ping_seen = true;
+								outcome = "ok".into();
+								break;
+							}
+							m => {
+								viol.push(("oracle=sequence;class=large_frame_then_headers;event=foreign_message".into(), format!("a message that was never sent: {}", m)));
+								break;
+							}
+						}
+					}
+				}
+			}
+			if viol.is_empty() && (got_hdrs != k || !ping_seen) {
+				viol.push((
+					"oracle=sequence;class=large_frame_then_headers;event=list_not_delivered_whole".into(),
+					format!("a {}-byte frame, then a list of {} headers, then a ping were sent: {} headers handed out, ping seen: {}, reading ended with {}", big, k, got_hdrs, ping_seen, outcome),
+				));
+			}
+			obs["outcome"] = json!(outcome);
+			obs["headers_handed_out"] = json!(got_hdrs);
+			obs["next_intact"] = json!(ping_seen);
+			obs["consumed"] = json!(0);
+			obs["violations"] = json!(viol.iter().map(|(a, b)| json!([a, b])).collect::<Vec<_>>());
+			drop(codec);
+			let _ = sender.join();
+			out.push(obs);
+		}
+	}
+	out
+}
+
 fn worker_limits(seed: u64, scale: u32, mainnet: bool) {
 	let hdrs: Vec<Vec<u8>> = if mainnet {
 		use grin_core::global::{self, ChainTypes};
@@ -2621,6 +2731,12 @@ fn worker_limits(seed: u64, scale: u32, mainnet: bool) {
 			});
 		}
 	});
+	if mainnet {
+		let listener = TcpListener::bind("127.0.0.1:0").expect("bind");
+		for obs in mainnet_sequences(&listener, 1_000_000) {
+			println!("RES {}", obs);
+		}
+	}
 	println!("WORKER-DONE {}", cases.len());
 }
 
@@ -2703,6 +2819,11 @@ fn parent_limits(run: &Run, scale: u32, mainnet: bool) {
 						bd.clone(),
 						json!({"outcome": outcome, "consumed": consumed, "max_alloc": ms}),
 					);
+				}
+				"accept_seq" => {
+					if v["next_intact"].as_bool() == Some(true) {
+						run.count("mainnet_large_frame_then_header_list_delivered_whole", 1);
+					}
 				}
 				"accept_len" => {
 					if consumed > HDR_LEN as u64 || v["len"].as_str() == Some("0") {
@@ -3524,6 +3645,7 @@ fn main() {
 	run.require("frames refused before the body", run.counter("frames_refused_before_body"), q(30, 250, 250));
 	run.require("within-limit frames accepted", run.counter("frames_within_limit_accepted"), q(15, 100, 100));
 	run.require("limit cases under Mainnet parameters", run.counter("limit_cases_under_mainnet_parameters"), q(20, 200, 200));
+	run.require("a large frame, then a header list, then a ping delivered whole (Mainnet parameters)", run.counter("mainnet_large_frame_then_header_list_delivered_whole"), q(4, 20, 20));
 	run.require("unknown-type frames around / above the chunk size skipped in sync (Mainnet parameters)", run.counter("mainnet_unknown_frames_followed_by_intact_message"), q(6, 18, 18));
 	run.require("self connection attempted after more than 100 outbound handshakes of the same node", run.counter("max_outbound_handshakes_before_a_self_connection"), 101);
 	run.require("contradictory counts refused", run.counter("count_contradictions_refused"), q(40, 40, 40));
